@@ -66,7 +66,43 @@ func variantOf(t *simrt.Tape, s string) string {
 	}
 }
 
+// drawStarCase: one sample, a centre with 255-257 one-difference sons (a counter of sons kept on
+// eight bits wraps at 256), the most abundant son being itself abundant, and more sequences in
+// the sample than a dispatcher handing out blocks of lines to 2-8 workers sends one at a time.
+func drawStarCase(t *simrt.Tape) []cleanSeq {
+	centre := genSeq(t, 95, 110, dna)
+	nsons := []int{256, 255, 256, 257}[t.Choose(4)]
+	seen := map[string]bool{centre: true}
+	out := []cleanSeq{{ID: "c000", Seq: centre, Counts: map[string]int{"smp0": 5000}}}
+	for p := 0; len(out) <= nsons && p < len(centre); p++ {
+		for k := 1; k < 4 && len(out) <= nsons; k++ {
+			b := []byte(centre)
+			b[p] = dna[(strings.IndexByte(dna, b[p])+k)%4]
+			if !seen[string(b)] {
+				seen[string(b)] = true
+				c := 1 + t.Choose(20)
+				if len(out) == 1 {
+					c = 4000 // the second most abundant sequence of the sample is a son
+				}
+				out = append(out, cleanSeq{ID: fmt.Sprintf("c%03d", len(out)), Seq: string(b), Counts: map[string]int{"smp0": c}})
+			}
+		}
+	}
+	// a few unrelated sequences and second-level variants
+	for k := t.Choose(6); k > 0; k-- {
+		s := genSeq(t, 95, 110, dna)
+		if !seen[s] {
+			seen[s] = true
+			out = append(out, cleanSeq{ID: fmt.Sprintf("c%03d", len(out)), Seq: s, Counts: map[string]int{"smp0": 1 + t.Choose(30)}})
+		}
+	}
+	return out
+}
+
 func drawCleanCase(t *simrt.Tape, thorough bool) []cleanSeq {
+	if t.Choose(16) == 7 {
+		return drawStarCase(t)
+	}
 	maxSeq := 14
 	if thorough {
 		maxSeq = 25
@@ -294,6 +330,9 @@ func runC13(rc *RunCtx) {
 	seqs := drawCleanCase(t, rc.Thorough())
 	dist := []int{1, 1, 2, 3}[t.Choose(4)]
 	ratio := []string{"", "", "0.5", "0.1"}[t.Choose(4)]
+	if len(seqs) > 200 {
+		dist, ratio = 1, "" // the star data set is judged against the exact one-difference graph
+	}
 	onlyHead := t.Choose(5) == 4
 	p := drawParCfg(t, len(seqs))
 	p.MaxCPU = []int{2, 3, 4, 8, 1, 6, -1}[t.Choose(7)]
